@@ -21,7 +21,11 @@ theorem unsafe_accounts_wellformed :
     unsafeAccounts.all (fun n => hasPrefix "Xt." n || hasPrefix "delegated:" n) = true := by decide
 
 /-- The sites of the files C17 is about (parser.rs, chunker.rs, encoding.rs). -/
-theorem c17_sites_covered : uncovered (Xt.Generated.sites.filter isC17) covered = [] := by decide
+theorem c17_sites_covered : uncoveredModuloMoves (Xt.Generated.sites.filter isC17) covered = [] := by decide
+
+/-- An `unsafe` site keeps the strict rule: moved to another function it is reported. -/
+example : uncoveredModuloMoves [("src/yaml/chunker/parser.rs", "Parser::helper", "unsafe_block", 1)] covered
+    = [("src/yaml/chunker/parser.rs", "Parser::helper", "unsafe_block", 1)] := by decide
 
 /-- …and an unsafe site explained by a tag that is not `delegated:` is rejected. -/
 example : uncovered [("src/yaml/chunker/parser.rs", "Parser::new", "panic", 1)] (covered.filter isUnsafeAccount)
